@@ -40,6 +40,7 @@ def make_spec(seed, s):
         O["up2"]["params"]["network"] = ["ref", "n1"]
         O["st1"]["params"]["idle_power"] = ["q", 0.1, "W"]; O["st2"]["params"]["idle_power"] = ["q", 0.1, "W"]
         O["srv1"]["params"]["server_type"] = ["s", "serverless"]
+        O["c1"]["rename"] = "France"; O["c2"]["rename"] = "France"      # two distinct Country objects with the same display name
         from ..spec import prune
         return prune(sp)
     if s == 1:
